@@ -4,5 +4,7 @@
 From Coq Require Import ZArith QArith List Extraction ExtrOcamlBasic.
 From Inf Require Import base.ExtrBase model.PathM model.EngineM model.WeightM model.SwapM.
 Extraction Language OCaml.
-Extraction "extract/c11_model.ml" extr_anchor select_swap retis_swap_zero quantis_swap_zero
+(* select_swap_g fixed_r fixed_q: true true = the code (select_swap), false = the code before
+   proposed_fixes/C11_zero_swap_own_limits.diff for retis_swap_zero / quantis_swap_zero *)
+Extraction "extract/c11_model.ml" extr_anchor select_swap_g select_swap retis_swap_zero quantis_swap_zero
   neg_inf_for with_left quantis_exponent.
